@@ -37,7 +37,10 @@ RULE = ('a case = one package description: project name/version, 0-5 libraries '
         'auto_fill on/off with omitted fields, custom libdir/includedir; library() '
         'objects without kind= next to shared_library()/static_library() under '
         '--enable/--disable-shared x --enable/--disable-static (dual, shared-only, '
-        'static-only), auto-filled from install() and with explicit libs=. Kinds: '
+        'static-only), auto-filled from install() and with explicit libs=; external '
+        'package() objects (stand-in mopack -> 1-3 hand-written .pc names, with/'
+        'without a specifier) in requires/requires_private/conflicts and in '
+        'packages= of public, private and transitive libraries. Kinds: '
         '"probe" = exactly one hostile token (each of ~35 tokens x {option, '
         'include-dir, link-option, private-link-option, srcdir, builddir, prefix} x '
         'positions), "mixed" = several hostile values, "full" = built with real gcc, '
@@ -46,6 +49,10 @@ RULE = ('a case = one package description: project name/version, 0-5 libraries '
         'description minus its index; non-trivial = has a hostile token, a library '
         'with a dependency, or a version specifier')
 ASSUMPTIONS = [
+    'the specifier of package(name, submodules, version=...) is a statement about '
+    'the package\'s first .pc name (the one bfg9000 itself version-checks); the .pc '
+    'names of its submodules are required unversioned; a ~20-line stand-in for '
+    '`mopack linkage --json` (passed through $MOPACK) maps package names to .pc names',
     'pkgconf 1.8.1 on this machine is the meaning of "read back by the real pkg-config"',
     'argument list of pkg-config output = shlex.split(posix=True) (quote removal, no '
     'expansion): the reading of bfg9000\'s own consumer side, CMake and meson',
@@ -76,7 +83,9 @@ EXTRA_COVERAGE = {
     # what the hand-written calibration files showed about this pkgconf
     'pkgconf_behaviour': _pkgconf_behaviour,
     'not_covered': [
-        'requires=[package(...)] objects (needs mopack, broken in this image)',
+        'package() objects resolved by the real mopack (broken in this image): a '
+        'stand-in answering `mopack linkage --json` stands for it; "generated" '
+        'packages (flags copied instead of required) are not produced',
         'a pkg_config() result used as requirement of a second pkg_config()',
         'desc/desc_name/url fields (no pkg-config query prints them)',
         'lang= other than c; mach-o install_names',
@@ -111,6 +120,7 @@ def floors(tier):
         'version:exists_eval': 300 if q else 5000,
         'version:ref_agrees': 300 if q else 5000,
         'requires:names_checked': 30 if q else 500,
+        'requires:entries_checked': 60 if q else 1000,
         'conflicts:tool_eval': 10 if q else 300,
         'conflicts:reference_reader_eval': 10 if q else 300,
         'configure_rejected_unsat': 5 if q else 60,
@@ -171,6 +181,7 @@ def base_case(kind):
         'link_options_private': [],
         'requires': [], 'requires_private': [], 'conflicts': [],
         'deps': {},
+        'packages': [],
         'build': False, 'consumer': False,
     }
 
@@ -535,6 +546,85 @@ def libmode_case(rng, mode, shape, auto, omit=None):
     return c
 
 
+# (package name, submodules, the .pc names the stand-in mopack resolves it to)
+PKG_POOL = [('ext1', [], ['ext1']),
+            ('ext2', ['extra'], ['ext2', 'ext2-extra']),
+            ('ext3', ['net', 'gui'], ['ext3', 'ext3-net', 'ext3-gui']),
+            ('ext4', ['core'], ['ext4-core']),
+            ('ext5', ['a'], ['ext5', 'ext5_a'])]
+PKG_WHERE = ['requires', 'requires_private', 'conflicts', 'lib:alpha', 'lib:inner',
+             'lib:side']
+
+
+def package_case(rng, where, entry, with_spec, auto, built=False, second=None):
+    """External package() objects (resolved through a stand-in mopack to one or
+    several hand-written .pc files) as requirements of the description."""
+    c = base_case('packages')
+    c['build'] = c['consumer'] = built
+    c['libs'] = [{'name': 'inner', 'path': 'inner', 'kind': 'static', 'deps': [],
+                  'link_options': []},
+                 {'name': 'alpha', 'path': 'alpha',
+                  'kind': rng.choice(['static', 'static', 'shared'])
+                  if where != 'lib:inner' else 'static',
+                  'deps': ['inner'], 'link_options': []},
+                 {'name': 'side', 'path': 'sub/side', 'kind': 'static', 'deps': [],
+                  'link_options': []}]
+    if c['libs'][1]['kind'] == 'shared':
+        c['libs'][0]['kind'] = 'shared'
+    c['pc_libs'] = ['alpha']
+    c['pc_libs_private'] = ['side']
+    gen_includes(rng, c, 1)
+    c['options'] = ['-DNUM=5']
+    c['auto_fill'] = auto
+    if auto:
+        c['omit'] = sorted(rng.sample(['name', 'version'], rng.randint(0, 2)))
+    picks = [(where, entry, with_spec)]
+    if second:
+        picks.append(second)
+    for w, (pname, subs, pcnames), spec in picks:
+        sp = None
+        if spec:
+            sp = rng.choice(['>=', '>', '<', '<=', '==', '!=']) + rng.choice(BOUNDS)
+        c['packages'].append({'name': pname, 'submodules': list(subs),
+                              'pcnames': list(pcnames), 'spec': sp, 'where': w})
+        for j, pc in enumerate(pcnames):
+            add_dep(c, pc)
+            if j == 0 and sp:
+                specs = pcref.parse_specs(sp)
+                c['deps'][pc]['good'] = [v for v in pcref.grid(specs)
+                                         if pcref.set_accepts(specs, v)][0]
+            else:
+                # the submodules' .pc files are versioned on their own
+                c['deps'][pc]['good'] = rng.choice(['0.5', '1.0', '1.7', '2.5', '9.0'])
+    if rng.random() < 0.5:
+        add_dep(c, 'dep1')
+        c[rng.choice(['requires', 'requires_private'])].append(
+            ['dep1', rng.choice([None, '>=1.2', '<2.0'])])
+        c['deps']['dep1']['good'] = '1.5'
+    return c
+
+
+def package_cases(rng, quick):
+    n = 0
+    for rep in range(1 if quick else 4):
+        for wi, where in enumerate(PKG_WHERE):
+            for ei, entry in enumerate(PKG_POOL):
+                for with_spec in (True, False):
+                    n += 1
+                    if quick and not ((ei + wi) % len(PKG_POOL) in (1, 2) and with_spec
+                                      or (ei == wi % len(PKG_POOL) and not with_spec)):
+                        continue
+                    second = None
+                    if n % 4 == 0:
+                        e2 = PKG_POOL[(ei + 2) % len(PKG_POOL)]
+                        second = (PKG_WHERE[(wi + 1) % 3], e2, n % 8 == 0)
+                    yield package_case(rng, where, entry, with_spec,
+                                       auto=(n % 3 != 0),
+                                       built=(n % (6 if quick else 9) == 1
+                                              and where != 'conflicts'),
+                                       second=second)
+
+
 def mixed_case(rng):
     """Several hostile values at once, never built."""
     c = base_case('mixed')
@@ -629,6 +719,8 @@ def cases(tier, seed):
                             not (not auto and si == (mi + 1) % len(MODE_SHAPES)):
                         continue
                     out.append(libmode_case(rng, mode, shape, auto))
+    # phase C3: external package() objects as requirements
+    out += list(package_cases(rng, q))
     # phase D: versions
     for want, n in (('single', 7 if q else 150), ('multi', 12 if q else 300),
                     ('unsat', 5 if q else 60), ('conflicts', 6 if q else 100)):
@@ -708,6 +800,27 @@ def render_project(c):
             lines.append('hdr_%d = header_directory(%r, include=%r)' % (
                 i, inc['dir'], '*.h'))
         hvars.append('hdr_%d' % i)
+    pkgs = c.get('packages') or []
+    pkg_lines = []
+    for i, pk in enumerate(pkgs):
+        a = [repr(pk['name'])]
+        if pk['submodules']:
+            a.append(repr(pk['submodules'] if len(pk['submodules']) > 1 or i % 2
+                          else pk['submodules'][0]))
+        if pk['spec'] is not None:
+            a.append('version=%r' % pk['spec'])
+        pkg_lines.append('pkg_%d = package(%s)' % (i, ', '.join(a)))
+    # package() objects are created before the libraries that use them
+    lines[1:1] = pkg_lines
+    for i, pk in enumerate(pkgs):
+        if pk['where'].startswith('lib:'):
+            ln = var[pk['where'][4:]]
+            for j, line in enumerate(lines):
+                if line.startswith(ln + ' = '):
+                    if 'packages=[' in line:
+                        lines[j] = line.replace('packages=[', 'packages=[pkg_%d, ' % i)
+                    else:
+                        lines[j] = line[:-1] + ', packages=[pkg_%d])' % i
     pub = [var[n] for n in c['pc_libs']]
     priv = [var[n] for n in c['pc_libs_private']]
     omit = set(c['omit']) if c['auto_fill'] else set()
@@ -730,8 +843,10 @@ def render_project(c):
         if c[key]:
             kw.append('%s=%r' % (key, c[key]))
     for key in ('requires', 'requires_private', 'conflicts'):
-        if c[key]:
-            items = [repr(n) if s is None else repr((n, s)) for n, s in c[key]]
+        lit = c.get('literal_' + key, c[key])
+        items = [repr(n) if s is None else repr((n, s)) for n, s in lit]
+        items += ['pkg_%d' % i for i, pk in enumerate(pkgs) if pk['where'] == key]
+        if items:
             kw.append('%s=[%s]' % (key, ', '.join(items)))
     if c['auto_fill']:
         kw.append('auto_fill=True')
@@ -1304,8 +1419,10 @@ def consumer_source(c, m, uses=None):
         elif o.startswith('-D') and '=' not in o:
             lines.append('#ifndef %s\n  return %d;\n#endif' % (o[2:], code))
         code += 1
-    for d in c['deps'].values():
-        lines.append('#ifndef DEP_%d\n  return %d;\n#endif' % (d['id'], code))
+    for dn in m['requires_public'] + m['requires_private']:
+        # (a package that is only in conflicts= contributes no flags)
+        lines.append('#ifndef DEP_%d\n  return %d;\n#endif' % (c['deps'][dn]['id'],
+                                                               code))
         code += 1
     for n in uses:
         lines.append('  if (f_%s() != %d) return %d;' % (n, lib_value(c, n), code))
@@ -1381,7 +1498,7 @@ def run_consumer(res, c, lay, m, form, obs, use_static, uses=None):
 # versions
 
 def ops_sig(specs):
-    return ','.join(sorted({op for op, b in specs}))
+    return ','.join(sorted({op for op, b in specs})) or 'unversioned'
 
 
 def conflict_specs(c, dep):
@@ -1450,22 +1567,65 @@ def minimise_specs(dep, specs, fails_like):
     return cur, case
 
 
+def check_entries(res, c, m, name, pcpath_gen, xenv, form):
+    """The Requires / Requires.private entries pkg-config lists are exactly the
+    declared (name, specifier) pairs - judged for every name that was declared
+    with at most one specifier (bfg9000 may legitimately rewrite longer sets)."""
+    for which, flag, names in (('public', '--print-requires', m['requires_public']),
+                               ('private', '--print-requires-private',
+                                m['requires_private'])):
+        rc, out, err = pkgconf([flag, name], pcpath_gen, xenv)
+        if rc != 0:
+            continue
+        got = {}
+        for line in out.decode('utf-8', 'replace').splitlines():
+            parts = line.split()
+            if parts:
+                got.setdefault(parts[0], []).append(tuple(parts[1:]))
+        for dep in names:
+            specs = combined(c, dep)
+            if len(specs) > 1 or len({tuple(x) for x in specs}) > 1:
+                continue
+            want = [(pcref.PC_OP[specs[0][0]], specs[0][1])] if specs else [()]
+            res.ev('requires:entries_checked')
+            have = got.get(dep)
+            if have is None or have == want:
+                continue          # a missing name is the names check's business
+            if want == [()]:
+                why = 'undeclared-specifier'
+            elif have == [()]:
+                why = 'specifier-dropped'
+            else:
+                why = 'specifier-differs'
+            res.violate(('requires', 'entries', why),
+                        {'form': form, 'list': which, 'dependency': dep,
+                         'declared': specs, 'listed_by_pkg_config': [list(x)
+                                                                     for x in have],
+                         'requires': c['requires'],
+                         'requires_private': c['requires_private'],
+                         'packages': c.get('packages')})
+
+
 def check_versions(res, c, lay, name, pcpath_gen, pcpath_ref, form, g, xenv=None,
                    classify=True):
     """Oracle (3), Requires side, on one form.  pcpath_* contain lay.deps last."""
     for dep, d in c['deps'].items():
         specs = combined(c, dep)
         is_req = any(n == dep for n, s in c['requires'] + c['requires_private'])
-        if not is_req or not specs:
+        if not is_req:
             continue
+        has_conf = any(n == dep for n, s in c['conflicts'])
+        if not specs and has_conf:
+            continue              # judged by check_conflicts
         if not g['requires_enforced'] or not g['requires_private_enforced']:
             res.exclude('pkgconf-does-not-enforce-requires')
             continue
-        if conflict_specs(c, dep):
+        if has_conf:
             res.exclude('dependency-both-versioned-and-conflicting')
             continue
         mism = []
-        for v in pcref.grid(specs):
+        # an unversioned requirement accepts every version of the dependency
+        for v in (pcref.grid(specs) if specs else ['0.1', '9.9']):
             write_deps(c, lay, {dep: v})
             want = pcref.set_accepts(specs, v)
             rrc = pkgconf(['--exists', name], pcpath_ref)[0]
@@ -1488,7 +1648,7 @@ def check_versions(res, c, lay, name, pcpath_gen, pcpath_ref, form, g, xenv=None
                    'pkg_config_exists': not want, 'pkg_config_stderr': gerr,
                    'all_mismatching_versions': [x[0] for x in mism]}
             feature = ops_sig(specs)
-            if classify:
+            if classify and specs:
                 small, mcase = minimise_specs(dep, specs, ('requires', kind))
                 if mcase is not None:
                     wit['minimal_specifiers'] = spec_text(small)
@@ -1573,6 +1733,58 @@ def check_conflicts(res, c, lay, name, pcfile, pcpath_gen, pcpath_ref, form, g,
 # --------------------------------------------------------------------------
 # one case
 
+def expand_packages(c):
+    """What a package() object declares: its version specifier speaks about the
+    package's first .pc name; the .pc names of its submodules are required without
+    a version.  Objects given to a library (packages=) are private requirements of
+    a description that exposes that library.  The literal lists are kept for
+    rendering."""
+    if not c.get('packages') or 'literal_requires' in c:
+        return
+    for key in ('requires', 'requires_private', 'conflicts'):
+        c['literal_' + key] = [list(x) for x in c[key]]
+    for pk in c['packages']:
+        key = 'requires_private' if pk['where'].startswith('lib:') else pk['where']
+        for j, pcname in enumerate(pk['pcnames']):
+            c[key].append([pcname, pk['spec'] if j == 0 else None])
+
+
+MOPACK_STANDIN = '''#!%s
+# stand-in for `mopack linkage --json <dep>` (mopack itself is broken in this image)
+import json, os, sys
+args = sys.argv[1:]
+if args[:1] == ['linkage']:
+    table = json.load(open(os.environ['VERIF_MOPACK_TABLE']))
+    dep = args[-1]
+    if dep not in table['deps']:
+        print(json.dumps({'error': 'no such dependency ' + dep}))
+        sys.exit(1)
+    print(json.dumps({'name': dep, 'type': 'system', 'generated': False,
+                      'auto_link': False, 'pcnames': table['deps'][dep],
+                      'pkg_config_path': [table['pcdir']]}))
+elif args[:1] == ['--version']:
+    print('mopack 0.0')
+else:
+    sys.exit(2)
+''' % core.PY
+
+
+def write_mopack_standin(c, lay):
+    exe = os.path.join(lay.root, 'mopack-standin')
+    with open(exe, 'w') as f:
+        f.write(MOPACK_STANDIN)
+    os.chmod(exe, 0o755)
+    table = {'pcdir': lay.deps, 'deps': {}}
+    for pk in c['packages']:
+        dep = pk['name'] + ('[%s]' % ','.join(pk['submodules'])
+                            if pk['submodules'] else '')
+        table['deps'][dep] = pk['pcnames']
+    tpath = os.path.join(lay.root, 'mopack-table.json')
+    with open(tpath, 'w') as f:
+        json.dump(table, f)
+    return {'MOPACK': exe, 'VERIF_MOPACK_TABLE': tpath}
+
+
 def resolve_kinds(c):
     """What each library *is* under the configured library mode: library() without
     kind= follows --enable-shared/--enable-static (both => a dual-use library whose
@@ -1596,6 +1808,7 @@ def effective(c, lay, res):
     c = json.loads(json.dumps(c))
     esc_of = {}
     resolve_kinds(c)
+    expand_packages(c)
 
     def adm(field, arg, ctx):
         e = calibrate(lay, field, arg)
@@ -1690,6 +1903,9 @@ def _run_in(case, res, classify, root):
 
     env = core.base_env({'CC': 'gcc', 'CXX': 'g++', 'PKG_CONFIG_PATH': lay.deps,
                          'PKG_CONFIG_LIBDIR': '/nonexistent-verif'})
+    if c.get('packages'):
+        env.update(write_mopack_standin(c, lay))
+        res.classes.add('package-objects')
     rc, out = proj.configure(lay.src, lay.build, 'make', lay.configure_args(c), env)
     if unsat:
         kind, dep, specs = unsat[0]
@@ -1876,6 +2092,8 @@ def _run_in(case, res, classify, root):
                                  'got_private': go['requires_private'],
                                  'requires': c['requires'],
                                  'requires_private': c['requires_private']})
+        if c['requires'] or c['requires_private']:
+            check_entries(res, c, m, name, pcpath_gen, xenv, form)
         if c['deps']:
             check_versions(res, c, lay, name, pcpath_gen, pcpath_ref, form, g, xenv,
                            classify)
